@@ -35,7 +35,9 @@ EXTENDS Integers, Sequences, FiniteSets, TLC
 
 HdrClasses   == {"ok", "len0", "lensmall", "lenplus", "lenpage", "lenhuge", "prefix", "meta"}
 TruncClasses == {"none", "zero", "pageminus1", "onepage"}
-LimitClasses == {"ok", "zero", "hdr", "table", "low", "unaligned", "beyondfile", "near32"}
+LimitClasses == {"ok", "zero", "hdr", "table", "low", "unaligned", "beyondfile", "near32", "wrappage"}
+(* near32: rounding the limit up to the record unit wraps around 2^32; wrappage: the record still fits *)
+(* below 2^32 but rounding its end up to the page size wraps (the file would have to grow past 4 GiB) *)
 HeadEClasses == {"ok", "zero", "hdr", "table", "unaligned", "gelimit", "gefile"}
 HeadNClasses == {"zero", "valid", "hdr", "table", "unaligned", "gelimit", "gefile"}
 NlenClasses  == {"ok", "zero", "pastpage", "pastend", "pastfile"}   \* pastend: the name ends 8 bytes beyond the file
